@@ -18,6 +18,7 @@ import (
 type FaultInner struct{ X int64 }
 
 func (i FaultInner) Add(a, b int) int { return a + b }
+func (i FaultInner) Boom3() int64     { panic("injected three-level method panics on purpose") }
 
 type FaultObj struct {
 	F      int64
@@ -103,6 +104,7 @@ var faultKinds = []faultKind{
 	{name: "bool-arithmetic", num: "true * 2"},
 	{name: "panicking-function", num: "boom()", stmt: "boom()"},
 	{name: "panicking-method", num: "Obj.Boom()", stmt: "Obj.Boom()"},
+	{name: "panicking-three-level-method", num: "Obj.In.Boom3()", stmt: "Obj.In.Boom3()"},
 	{name: "panicking-function-int-value", num: "boomi()", stmt: "boomi()"},
 	{name: "panicking-function-struct-value", num: "booms()", stmt: "booms()"},
 	{name: "panicking-function-error-value", num: "boome()", stmt: "boome()"},
@@ -594,6 +596,8 @@ func ConcStress(k *fw.Case) {
 		}
 	}
 	b.WriteString("  }\n  return v0\nend\nrule \"other\" salience 1 begin conc { a1 = 1 a2 = a1x() } return a1 end\n")
+	// stores through a LOCAL that holds an injected object, one and two levels deep: plain healthy statements
+	b.WriteString("rule \"alias\" salience -2 begin\n  la = AObj\n  la.F = 3\n  la.In.X = 7\n  lv = la.In.X + la.F\n  return lv\nend\n")
 	// injected code that comes back into the data context it was called from (a function, a method, a
 	// three-level method that add, read and remove a name): the call returns all the same
 	b.WriteString("rule \"reenter\" salience -1 begin\n  ReFn(1)\n  ReObj.Put(2)\n  ReHold.In.Put(3)\n  rex = ReHold.In.Put(4)\n  return 1\nend\n")
@@ -604,6 +608,7 @@ func ConcStress(k *fw.Case) {
 	grow := &growT{Items: []int64{1, 2, 3}, M: map[string]int64{"a": 1, "b": 2}}
 	apis := map[string]interface{}{
 		"Grow":  grow,
+		"AObj":  &FaultObj{F: 1},
 		"GrowS": []int64{4, 5},
 		"seen":  func(a, c int64) int64 { atomic.AddInt64(&calls, 1); return a + c },
 		"a1x":   func() int64 { return 2 },
